@@ -123,11 +123,14 @@ FAST_TESTS = ['test_catalog_thin_diffuser.py', 'test_catalog_plane_detector.py',
 def oracle_test_corpus(inp):
     """Run one of odak's test files with every odak function wrapped by the snapshot check (subprocess)."""
     env = dict(os.environ, PYTHONPATH='%s:%s' % (common.REPO, common.VERIF), OMP_NUM_THREADS='1', MKL_NUM_THREADS='1', PYTHONWARNINGS='ignore')
-    cmd = ['/venv/bin/python', os.path.join(common.VERIF, 'harness', 'props', 'c20_corpus.py'), common.REPO, inp['test'], str(inp.get('limit', 6))]
-    rc, out = common.sh(cmd, timeout=int(inp.get('timeout', 90)), env=env)
+    cmd = ['/venv/bin/python', os.path.join(common.VERIF, 'harness', 'props', 'c20_corpus.py'), common.REPO, inp['test'], str(inp.get('limit', 6)),
+           str(inp.get('cpu', 0))]
+    rc, out = common.sh(cmd, timeout=int(inp.get('timeout', 1800)), env=env)
     for line in out.split('\n'):
         if line.startswith('@@C20 '):
-            return json.loads(line[6:])
+            o = json.loads(line[6:])
+            o['timeout'] = bool(o.get('cpu_limit_hit'))
+            return o
     return {'test': inp['test'], 'timeout': True, 'snapshots': 0, 'functions': [], 'violations': [], 'error': 'no result (rc=%s)' % rc}
 
 
@@ -145,6 +148,8 @@ def static_analysis(ctx):
     import ast
     from tracer import mutir
     T = tables()
+    from harness.props import c20_probe as PR
+    T.PROBE = PR.classify_library          # library functions that are in no table are classified from an observation
     t0 = time.time()
     res = mutir.translate_all(common.REPO, T)
     ctx.log('translated %d function / method definitions of %s/odak in %.1fs (%d IR statements)'
@@ -168,8 +173,17 @@ def static_analysis(ctx):
                    'definitions found by an independent AST walk: %d, translated: %d, distinct names: %d' % (ndefs, len(res), len(set(names))))
     errs = [(r['name'], r['error']) for r in res if r['error']]
     ctx.obligation('translator:no-untranslatable-construct', not errs, '; '.join('%s: %s' % e for e in errs[:10]))
-    uncl = sorted({u for r in res for u in r['unclassified']})
-    ctx.obligation('translator:every-library-call-classified', not uncl, 'not in the committed tables (treated conservatively): %s' % uncl)
+    # library calls that are in no committed table: classified from an observation of the real function under the call
+    # shape used in the source (fresh / alias / write); a function that cannot be probed is treated as writing its
+    # arguments (sound; if that makes a body unacceptable the checker-accepts obligation names it)
+    probed = {}
+    for r in res:
+        probed.update(r['probed'])
+    ctx.extra['library_calls_classified_by_probe'] = probed
+    if probed:
+        ctx.log('library calls outside the committed tables, classified by probing the real function: %s' % probed)
+        ctx.assumptions.append('library functions not in the committed tables were classified from sample calls: %s' % probed)
+    table_self_test(ctx, res)
     ctx.extra['unresolved_callees'] = sorted({u for r in res for u in r['unresolved']})
     ctx.extra['translator_notes'] = sorted({u for r in res for u in r['notes']})
     ctx.programs = len(res)
@@ -247,6 +261,44 @@ def static_analysis(ctx):
     return res, verdicts, excused
 
 
+def table_self_test(ctx, res):
+    """Every (library function | method name, call shape) that odak uses, with the class the translator gave it, is
+    called on small fresh arrays / tensors of several dtypes (matching and non-matching): an entry classed `fresh` or
+    `scalar` must never share memory with an operand nor write one; `alias` must never write."""
+    from harness.props import c20_probe as PR
+    t0 = time.time()
+    lib, meth = set(), set()
+    for r in res:
+        lib |= {tuple(x) for x in r['libcalls']}
+        meth |= {tuple(x) for x in r['methcalls']}
+    bad, nprobed, unprobed = [], 0, []
+    for d, npos, kw, cls in sorted(lib, key=repr):
+        if d.split('.')[0] not in ('numpy', 'torch', 'copy'):
+            continue
+        p = PR.probe_library(d, npos, tuple(tuple(k) for k in kw))
+        if p is None:
+            unprobed.append(d)
+            continue
+        nprobed += 1
+        ctx.case('table-self-test/library/%s' % cls, (d, npos, kw))
+        if (p['writes'] and cls != 'write') or (p['aliases'] and cls in ('fresh', 'scalar')):
+            bad.append('%s classed %s but observed %s: %s' % (d, cls, 'writing an argument' if p['writes'] else 'sharing memory with an argument', p['example']))
+    for name, npos, kw, cls in sorted(meth, key=repr):
+        if cls == 'scalar-receiver':
+            continue
+        p = PR.probe_method(name, npos, tuple(tuple(k) for k in kw))
+        if p is None:
+            unprobed.append('.' + name)
+            continue
+        nprobed += 1
+        ctx.case('table-self-test/method/%s' % cls, (name, npos, kw))
+        if (p['writes'] and cls != 'write') or (p['aliases'] and cls in ('fresh', 'scalar')):
+            bad.append('.%s classed %s but observed %s: %s' % (name, cls, 'writing the receiver' if p['writes'] else 'sharing memory with the receiver', p['example']))
+    ctx.obligation('tables:self-test(table class vs observed aliasing / writing; %d call shapes probed)' % nprobed, not bad and nprobed > 200, '; '.join(bad[:12]))
+    ctx.extra['table_self_test'] = {'call_shapes_probed': nprobed, 'not_probeable': sorted(set(unprobed)), 'seconds': round(time.time() - t0, 1)}
+    ctx.log('table self-test: %d call shapes probed in %.1fs, %d mismatches' % (nprobed, time.time() - t0, len(bad)))
+
+
 # ---------------------------------------------------------------- running the oracles
 def qualname_of(func):
     return '%s.%s' % (func.__module__, func.__qualname__)
@@ -303,14 +355,19 @@ def run_snapshot_calls(ctx, seeds, only=None, verdict_of=None):
                 if len(ctx.samples) < 3 and variant == 'boundary':
                     ctx.sample({'oracle': 'snapshot_call', 'input': inp, 'function': qual, 'clauses': [(c, ok) for c, ok, _, _ in res]})
     logging.disable(logging.NOTSET)
+    import shutil
+    if RC._SCRATCH[0]:
+        shutil.rmtree(RC._SCRATCH[0], ignore_errors=True)
+        RC._SCRATCH[0] = None
     return seen
 
 
-def run_corpus(ctx, tests, timeout, limit=6):
+def run_corpus(ctx, tests, cpu, limit=6):
+    """each file gets a CPU-time budget (not wall time: the result does not depend on the load of the machine)"""
     T = tables()
     seen = {}
     with ThreadPoolExecutor(max_workers=min(common.NCPU, 14)) as ex:
-        outs = list(ex.map(lambda t: oracle_test_corpus({'test': 'test/' + t, 'timeout': timeout, 'limit': limit}), tests))
+        outs = list(ex.map(lambda t: oracle_test_corpus({'test': 'test/' + t, 'cpu': cpu, 'limit': limit}), tests))
     nsnap = 0
     for o in outs:
         nsnap += o.get('snapshots', 0)
@@ -323,11 +380,15 @@ def run_corpus(ctx, tests, timeout, limit=6):
             if q in T.DOCUMENTED_IN_PLACE:
                 ctx.extra.setdefault('documented_in_place_observed', {})[q] = v['diff']
                 continue
-            ctx.violation(q, v['clause'], {'oracle': 'test_corpus', 'test': o['test'], 'function': q, 'timeout': timeout, 'limit': limit},
+            ctx.violation(q, v['clause'], {'oracle': 'test_corpus', 'test': o['test'], 'function': q, 'cpu': cpu, 'limit': limit},
                           'arguments / defaults bit for bit as before the call', v['diff'])
     ctx.traces += nsnap
-    ctx.extra['corpus'] = {'tests': len(tests), 'snapshotted_calls': nsnap, 'timeouts': [o['test'] for o in outs if o.get('timeout')],
-                           'functions_observed': len(seen)}
+    incomplete = [o['test'] for o in outs if o.get('timeout')]
+    ctx.extra['corpus'] = {'tests_selected': len(tests), 'tests_completed': len(tests) - len(incomplete), 'cpu_budget_s_per_file': cpu,
+                           'snapshotted_calls': nsnap, 'not_completed': incomplete, 'functions_observed': len(seen)}
+    if incomplete:
+        ctx.assumptions.append('test-corpus oracle: %d of %d test files did not finish within their CPU budget (%d s) and were only partly observed: %s'
+                               % (len(incomplete), len(tests), cpu, incomplete))
     return seen
 
 
@@ -368,14 +429,12 @@ def run(ctx):
     tdir = os.path.join(common.REPO, 'test')
     alltests = sorted(f for f in os.listdir(tdir) if f.startswith('test_') and f.endswith('.py')) if os.path.isdir(tdir) else []
     if ctx.thorough:
-        tests, timeout = alltests, 420
+        tests, cpu = alltests, 900
     else:
-        fast = [t for t in FAST_TESTS if t in alltests]
-        ctx.rng.shuffle(fast)
-        tests, timeout = fast[:22], 45
-    seen2 = run_corpus(ctx, tests, timeout)
-    ctx.log('test-corpus oracle: %d test files, %d snapshotted calls of %d functions in %.1fs'
-            % (len(tests), ctx.extra['corpus']['snapshotted_calls'], len(seen2), time.time() - t0))
+        tests, cpu = [t for t in FAST_TESTS if t in alltests], 60       # the same files for every seed
+    seen2 = run_corpus(ctx, tests, cpu)
+    ctx.log('test-corpus oracle: %d of %d test files completed, %d snapshotted calls of %d functions in %.1fs'
+            % (ctx.extra['corpus']['tests_completed'], len(tests), ctx.extra['corpus']['snapshotted_calls'], len(seen2), time.time() - t0))
 
     # ---- B2 correspondence: what Coq concluded about the model agrees with what the implementation did
     observed = {}
@@ -392,8 +451,23 @@ def run(ctx):
         ctx.obligation('correspondence:documented-in-place-updates-are-observed', not silent, 'never observed changing their argument: %s' % silent)
     ctx.extra['functions_called_by_oracles'] = len(observed)
     ctx.extra['functions_in_model'] = len(res)
-    ctx.exhaustive = True
-    ctx.extra['exhaustive_domain'] = 'static check: every function / method definition under odak/ (%d)' % len(res)
+    # `exhaustive` is not claimed: only the static side enumerates its whole domain (every definition under odak/);
+    # the dynamic oracles sample calls
+    ctx.extra['static_domain'] = 'static check: every function / method definition under odak/ (%d)' % len(res)
+    ctx.assumptions += [
+        'the AST->IR translation is faithful: SSA construction, inlining, kinds (parameters documented / defaulted as int, float, str, bool, '
+        'torch.device are immutable values and are not tracked)',
+        'classification tables of numpy / torch / builtin operations (tracer/recipes/c20.py); validated each run by the table self-test on '
+        'sample operands (%s call shapes), not proved' % ctx.extra.get('table_self_test', {}).get('call_shapes_probed'),
+        '%d distinct callees cannot be resolved statically (torch.nn.Module attributes, callbacks, plotting objects: see unresolved_callees); '
+        'they are assumed not to write their arguments unless named like a rejected function; torch.nn activations constructed with '
+        'inplace=True do write their input (in odak they are applied to freshly computed convolution outputs; observed by the recipes of the '
+        'model components only)' % len(ctx.extra.get('unresolved_callees', [])),
+        'the state of `self` is not an argument: an argument stored in an attribute by one call and written by a later call is outside the model '
+        '(within one call, e.g. a constructor that stores and then writes its argument, it is covered)',
+        'autograd graph state (.grad, backward) is outside the model',
+        'valid arguments only: the call recipes (%d functions called) and odak\'s own tests define the calls observed dynamically' % (len(seen)),
+    ]
     ctx.extra['seeds'] = seeds
 
 
